@@ -669,4 +669,5 @@ def LATE_UNITS():
     # "the sample mean of (fine minus coarse) discounted payoffs": the two payoffs of one multilevel sample are the values of
     # the product on the fine and on the coarse path of THAT sample, each on its own (the lemma lives in c17)
     from contracts import c17
-    return [c17.MultilevelPathProcess()]
+    # "with and without control variates": the controls are valued on the same paths, in the representation of the process
+    return [c17.MultilevelPathProcess(), c17.ControlsFollowTheProcessRepresentation()]
